@@ -36,6 +36,12 @@ func shrinkGrammar(c *check, p *part, env *ex.Env, replayPath string, known map[
 	if json.Unmarshal(cs["g"], &g) != nil {
 		return
 	}
+	if t, ok := cs["tree"]; ok && string(t) != "null" {
+		// the case carries a derivation tree whose production numbers refer to
+		// this very grammar: reducing the grammar would invalidate it (the
+		// sentence itself was already shrunk by rapid)
+		return
+	}
 	var flags []string
 	json.Unmarshal(cs["flags"], &flags)
 	var variants map[string][]string
